@@ -895,8 +895,8 @@ def run(ctx):
                                 "exitPrimary_output_expression_list", "exitPrimary_component_reference"})
     ctx.notes["source_fingerprint"] = {"parser.py:listener(%d fns)" % nfp: fp}
     changed = (fp != LISTENER_FP) or (hashes != RULE_HASHES)
-    ctx.notes["adaptive_depth"] = "listener/rule shapes changed: thorough case counts" if changed else "unchanged"
-    big = ctx.tier == "thorough" or changed
+    ctx.notes["adaptive_depth"] = "listener/rule shapes changed: 3x quick case counts" if changed else "unchanged"
+    big = ctx.tier == "thorough"
 
     # ---- cases ---------------------------------------------------------------------------
     rng = ctx.rng
@@ -910,7 +910,9 @@ def run(ctx):
     stats = {}
     for t in operator_pairs():
         cases.append(make_case("pairs", t, p_expression(t), "min"))
-    n_typed, n_untyped, n_dialect = (500, 150, 150) if not big else (16000, 8000, 6000)
+    n_typed, n_untyped, n_dialect = (500, 150, 150) if not big else (6000, 3000, 2500)
+    if changed and not big:      # adaptive depth: the mirrored code changed -> three times the quick counts
+        n_typed, n_untyped, n_dialect = 1500, 450, 450
     for i in range(n_typed):
         d = rng.choice([2, 3, 3, 4])
         t = gen_arith(rng, d, stats) if rng.random() < 0.6 else gen_bool(rng, d, stats)
